@@ -9,6 +9,7 @@ EXPLANATION = ("C10: structural conditions for terminating teardown: no lock re-
                "(close/stop/fini slots), teardown ordering in pipe_reap / sock_shutdown, handle validity guards."
                " Also: references taken with find/hold/create are released or consumed on every path and never released before they were taken (R1); close functions examine every parked operation on every path (R5); a conditional wake counts only if its guard is established for the waiter (R9).")
 EXPLANATION += " Round 3: the wake that lets a closer go is the releasing thread's last touch of what the closer finalizes (R7); a refused hold is not followed by a release (R1); an unlinked waiter is not dropped (R10); nothing is parked after close unless a late drain or a closed test covers it (R11)."
+EXPLANATION += ' Round 6: the cancel mark of an operation stays until it completes (R14 = C02.A14); the lost-wake-up rule no longer exempts ws_stop (the exemption hid a genuine hang).'
 
 INLINE = ("nni_aio_finish_sync", "nni_aio_completions_run", "nni_task_exec")
 BLOCKING = ("nni_aio_stop", "nni_aio_wait", "nni_task_wait", "nni_thr_fini", "nni_thr_wait", "nni_aio_fini",
